@@ -157,32 +157,24 @@ func (u *PsipURI) AdjustOffs(newpos PField) bool {
 		return false
 	}
 	start := u.Scheme.Offs
-	last := offs
+	last := offs + u.Scheme.Len
 	u.Scheme.Offs = offs
-	if u.User.Offs != 0 {
-		u.User.Offs = u.User.Offs - start + offs
-		last = u.User.Offs + u.User.Len
+	adj := func(f *PField) {
+		if f.Len == 0 {
+			// empty (or missing) component: it denotes no bytes, do not
+			// let it point outside the new span
+			f.Reset()
+			return
+		}
+		f.Offs = f.Offs - start + offs
+		last = f.Offs + f.Len
 	}
-	if u.Pass.Offs != 0 {
-		u.Pass.Offs = u.Pass.Offs - start + offs
-		last = u.Pass.Offs + u.Pass.Len
-	}
-	if u.Host.Offs != 0 {
-		u.Host.Offs = u.Host.Offs - start + offs
-		last = u.Host.Offs + u.Host.Len
-	}
-	if u.Port.Offs != 0 {
-		u.Port.Offs = u.Port.Offs - start + offs
-		last = u.Port.Offs + u.Port.Len
-	}
-	if u.Params.Offs != 0 {
-		u.Params.Offs = u.Params.Offs - start + offs
-		last = u.Params.Offs + u.Params.Len
-	}
-	if u.Headers.Offs != 0 {
-		u.Headers.Offs = u.Headers.Offs - start + offs
-		last = u.Headers.Offs + u.Headers.Len
-	}
+	adj(&u.User)
+	adj(&u.Pass)
+	adj(&u.Host)
+	adj(&u.Port)
+	adj(&u.Params)
+	adj(&u.Headers)
 	if last > end {
 		panic("PsipURI.AdjustOffs: offset past end")
 	}
